@@ -494,7 +494,10 @@ BODY_ERRORS = _os.environ.get('SSJ_GEN_BODY_ERRORS', '1') == '1'
 def gen_join_frames(rng, ts, stats, missing=None, big=False, str_dtype=None, nonstring=True):
     if str_dtype is None:
         str_dtype = rng.random() < 0.15
-    stats.hit('frames.dtype.' + ('str' if str_dtype else 'object'))
+    if str_dtype is True:
+        # pandas has two string dtypes: 'str' (NaN-backed, the default of pandas 3) and 'string' (pd.NA-backed)
+        str_dtype = rng.choice(['str', 'str', 'string'])
+    stats.hit('frames.dtype.' + (str_dtype if str_dtype else 'object'))
     nl, nr = rng.randint(0, 8), rng.randint(0, 8)
     mp = rng.choice([0.0, 0.0, 0.2, 0.5]) if missing is None else missing
     allv = gen_strings_for(rng, ts, nl + nr, big=big, missing_p=mp)
@@ -522,7 +525,7 @@ def gen_join_frames(rng, ts, stats, missing=None, big=False, str_dtype=None, non
             stats.hit('frames.self_join.same_column')
             return L, L, lkey, lkey, lname, lname
         other = (rv + lv)[:nl]
-        L['alias'] = pd.Series(other, dtype='str' if str_dtype else object, index=L.index)
+        L['alias'] = pd.Series(other, dtype=str_dtype if str_dtype else object, index=L.index)
         stats.hit('frames.self_join.other_column')
         return L, L, lkey, lkey, lname, 'alias'
     R = make_frame(rng, rv, attr=rname, key=rkey, str_dtype=str_dtype)
@@ -564,10 +567,12 @@ UNORDERED_JOINS = {'edit_distance'}     # candidates come out of a Python `set`
 def call_join(which, L, R, lk, rk, la, ra, ts, t, kw, public=False):
     fn = (PUBLIC if public else JOINS)[which]
     kw = dict(kw)
-    kw['show_progress'] = False
-    if which == 'edit_distance':
-        return fn(L, R, lk, rk, la, ra, t, tokenizer=ts.obj, **kw)
-    return fn(L, R, lk, rk, la, ra, ts.obj, t, **kw)
+    kw.pop('show_progress', None)
+    kw.update(progress_kw(which, len(L) if hasattr(L, '__len__') else 0, len(R) if hasattr(R, '__len__') else 0, str(t), sorted(kw.items(), key=str)))
+    with quiet():
+        if which == 'edit_distance':
+            return fn(L, R, lk, rk, la, ra, t, tokenizer=ts.obj, **kw)
+        return fn(L, R, lk, rk, la, ra, ts.obj, t, **kw)
 
 
 def gen_join_case(rng, stats, which=None, n_jobs_choices=(1, 1, 1, 2, 3, -1, 50), str_dtype=None):
@@ -667,10 +672,22 @@ def gen_filter(rng, ts, kind, stats):
         return f, d
     m, t, cls = gen_measure_threshold(rng, ts)
     ae = rng.random() < 0.6
-    f = FILTERS[kind](ts.obj, m, t, ae, am)
+    mname = m
+    if rng.random() < 0.15:
+        mname = rng.choice([m.lower(), m.capitalize()])      # measure names are case-insensitive ('jaccard', 'Edit_distance')
+        stats.hit('filter.measure_name_case')
+    f = FILTERS[kind](ts.obj, mname, t, ae, am)
     d = {'kind': kind, 'measure': m, 'threshold': pyv(t), 'allow_empty': ae, 'allow_missing': am}
     stats.hit('filter.%s.%s' % (kind, m))
     return f, d
+
+
+def gen_prefixes(rng, stats, where):
+    """output prefixes: the defaults mostly, otherwise the caller's own (every entry point that projects attributes takes them)"""
+    if rng.random() < 0.75:
+        return 'l_', 'r_'
+    stats.hit(where + '.custom_prefixes')
+    return rng.choice([('left.', 'R_'), ('ltable_', 'rtable_'), ('a', 'b'), ('l_', 'right ')])
 
 
 def suite_filter_tables(rng, n, stats, kinds=None):
@@ -697,13 +714,18 @@ def suite_filter_tables(rng, n, stats, kinds=None):
         else:
             ro, bad = malform_out(rng, stats, R, ro, bad)
         nj = rng.choice([1, 1, 2, 3, -1, 50])
-        kw = {'l_out_attrs': lo, 'r_out_attrs': ro, 'n_jobs': nj, 'show_progress': False}
+        kw = {'l_out_attrs': lo, 'r_out_attrs': ro, 'n_jobs': nj}
+        kw.update(progress_kw('filter_tables', kind, len(L) if isinstance(L, pd.DataFrame) else 0, nj, str(lo), str(ro)))
+        lpre, rpre = gen_prefixes(rng, stats, 'filter_tables')
+        if (lpre, rpre) != ('l_', 'r_'):
+            kw['l_out_prefix'], kw['r_out_prefix'] = lpre, rpre
         oss = False
         if kind == 'overlap':
             oss = rng.random() < 0.5
             kw['out_sim_score'] = oss
         try:
-            out = f.filter_tables(L, R, lk, rk, la, ra, **kw)
+            with quiet():
+                out = f.filter_tables(L, R, lk, rk, la, ra, **kw)
             exp = {'ok': out_frame(out)}
             stats.hit('filter_tables.rows', len(out))
         except (OverflowError, ZeroDivisionError):
@@ -712,7 +734,7 @@ def suite_filter_tables(rng, n, stats, kinds=None):
             exp = {'err': err_name(e)}
         req = {'op': 'filter_tables', 'ltable': frame(L), 'rtable': frame(R), 'l_key': lk, 'r_key': rk, 'l_attr': la, 'r_attr': ra,
                'l_out': lo, 'r_out': ro, 'n_jobs': nj, 'tokenizer': ts.describe(), 'toks': ts.table(strings_of(L0[la0], R0[ra0])),
-               'out_sim_score': oss, 'cpu': common.CPU}
+               'out_sim_score': oss, 'cpu': common.CPU, 'l_pre': lpre, 'r_pre': rpre}
         req.update(d)
         if bad:
             req['_malformed'] = bad
@@ -826,7 +848,9 @@ def suite_filter_candset(rng, n, stats, kinds=None):
         L, R, lk, rk, la, ra, C, clk, crk, bad = malform(rng, stats, L, R, lk, rk, la, ra, C, clk, crk)
         nj = rng.choice([1, 1, 2, 3, -1, 50])
         try:
-            out = f.filter_candset(C, clk, crk, L, R, lk, rk, la, ra, n_jobs=nj, show_progress=False)
+            with quiet():
+                out = f.filter_candset(C, clk, crk, L, R, lk, rk, la, ra, n_jobs=nj,
+                                       **progress_kw('filter_candset', kind, len(C) if isinstance(C, pd.DataFrame) else 0, nj))
             exp = {'ok': out_frame(out)}
             stats.hit('filter_candset.kept', len(out))
             stats.hit('filter_candset.dropped', max(0, len(C) - len(out)))
@@ -865,6 +889,17 @@ def suite_apply_matcher(rng, n, stats):
         if rng.random() < 0.06 and len(L) and not L[la].isnull().any() and L[la].is_unique and str(L[la].dtype) == 'object':
             lk = la             # the match attribute is also the key attribute (unique, no missing value)
             stats.hit('apply_matcher.match_attr_is_key')
+        numeric_match = (not use_tok) and lk != la and L is not R and rng.random() < 0.25
+        if numeric_match:
+            # without a tokenizer the match attributes may be of any type: years compared by |a - b| (C05: "the two referenced values")
+            L, R = L.copy(), R.copy()
+            if rng.random() < 0.5:
+                L[la] = pd.Series([rng.randint(1990, 1996) for _ in range(len(L))], dtype='int64', index=L.index)
+                R[ra] = pd.Series([rng.randint(1990, 1996) for _ in range(len(R))], dtype='int64', index=R.index)
+            else:
+                L[la] = pd.Series([rng.choice([1990.0, 1991.5, 1993.0, np.nan]) for _ in range(len(L))], dtype='float64', index=L.index)
+                R[ra] = pd.Series([rng.choice([1990.0, 1991.5, 1993.0, np.nan]) for _ in range(len(R))], dtype='float64', index=R.index)
+            stats.hit('apply_matcher.numeric_match_attr')
         C, clk, crk = gen_candset(rng, L, R, lk, rk, stats)
         L0, R0, la0, ra0 = L, R, la, ra
         L, R, lk, rk, la, ra, C, clk, crk, bad = malform(rng, stats, L, R, lk, rk, la, ra, C, clk, crk, numeric=False)
@@ -874,6 +909,8 @@ def suite_apply_matcher(rng, n, stats):
                                OverlapCoefficient().get_raw_score, lambda a, b: len(set(a) & set(b)),
                                lambda a, b: len(set(a) & set(b)) > 0,                                    # a bool is a number too
                                lambda a, b: float('inf') if set(a) == set(b) else len(set(a) ^ set(b))])  # and +inf a float
+        elif numeric_match:
+            base = rng.choice([lambda a, b: abs(a - b), lambda a, b: a == b, lambda a, b: float(a) - float(b)])
         else:
             base = rng.choice([Levenshtein().get_raw_score, lambda a, b: float(len(a) == len(b)), lambda a, b: abs(len(a) - len(b)),
                                lambda a, b: a == b])
@@ -893,13 +930,15 @@ def suite_apply_matcher(rng, n, stats):
         else:
             ro, bad = malform_out(rng, stats, R, ro, bad)
         oss = rng.random() < 0.7
+        lpre, rpre = gen_prefixes(rng, stats, 'apply_matcher')
         nj = rng.choice([1, 1, 2, 3, -1, 50])
         if nj != 1:
             # quick tier runs the chunked path in-process (closures are not picklable for loky anyway)
             pass
         try:
-            out = apply_matcher(C, clk, crk, L, R, lk, rk, la, ra, ts.obj if ts else None, sim, t, op, am, lo, ro,
-                                'l_', 'r_', oss, nj, False)
+            with quiet():
+                out = apply_matcher(C, clk, crk, L, R, lk, rk, la, ra, ts.obj if ts else None, sim, t, op, am, lo, ro,
+                                    lpre, rpre, oss, nj, **progress_kw('apply_matcher', len(C) if isinstance(C, pd.DataFrame) else 0, nj, op, str(t)))
             exp = {'ok': out_frame(out)}
             stats.hit('matcher.kept', len(out))
             stats.hit('matcher.cache' if (ts and bad is None and len(L) + len(R) < 2 * len(C)) else 'matcher.nocache')
@@ -919,7 +958,7 @@ def suite_apply_matcher(rng, n, stats):
                'ltable': frame(L), 'rtable': frame(R), 'l_key': lk, 'r_key': rk, 'l_attr': la, 'r_attr': ra,
                'threshold': pyv(t), 'comp_op': op, 'allow_missing': am, 'l_out': lo, 'r_out': ro, 'out_sim_score': oss,
                'n_jobs': nj, 'tokenizer': ts.describe() if ts else None,
-               'toks': ts.table(strings_of(L0[la0], R0[ra0])) if ts else None, 'sim': simtab, 'cpu': common.CPU}
+               'toks': ts.table(strings_of(L0[la0], R0[ra0])) if ts else None, 'sim': simtab, 'cpu': common.CPU, 'l_pre': lpre, 'r_pre': rpre}
         if bad:
             req['_malformed'] = bad
         cases.append((req, exp, None))
@@ -973,6 +1012,22 @@ def malformed_accepted(cases):
     return out
 
 
+def strip_result_index(x):
+    if isinstance(x, dict):
+        return {k: strip_result_index(v) for k, v in x.items() if not (k == 'index' and 'columns' in x and 'rows' in x)}
+    if isinstance(x, list):
+        return [strip_result_index(v) for v in x]
+    return x
+
+
+def strip_converted_dtype(x):
+    if isinstance(x, dict):
+        return {k: strip_converted_dtype(v) for k, v in x.items() if not (k == 'dtype' and 'values' in x)}
+    if isinstance(x, list):
+        return [strip_converted_dtype(v) for v in x]
+    return x
+
+
 def run_cases(cases):
     """returns (n_cases, mismatches) where a mismatch is dict(request, model, real)"""
     if not cases:
@@ -986,6 +1041,14 @@ def run_cases(cases):
         mm, rr = norm_scores(copy.deepcopy(m)), norm_scores(copy.deepcopy(realr))
         if meta in NORMALIZERS:
             mm, rr = NORMALIZERS[meta](mm, rr)
+        if req.get('op') != 'filter_candset':
+            # the row labels of a RESULT are promised only for filter_candset (C06: "same columns, order and index labels");
+            # no property mentions the index of what a join, filter_tables or apply_matcher returns
+            mm, rr = strip_result_index(mm), strip_result_index(rr)
+        if isinstance(meta, str) and meta.startswith('converter:') and meta.split(':')[2] not in ('object', 'str', 'empty_object'):
+            # C16 fixes the VALUES of a converted numeric column, not the dtype pandas stores the strings in
+            # (string columns are "returned unchanged": there the dtype is compared)
+            mm, rr = strip_converted_dtype(mm), strip_converted_dtype(rr)
         if json.dumps(mm, sort_keys=True) != json.dumps(rr, sort_keys=True):
             bad.append({'request': req, 'model': mm, 'real': rr, 'kind': 'mismatch'})
     return len(cases), bad
@@ -1011,7 +1074,13 @@ def gen_column(rng, stats):
     n = rng.randint(1, 8)
     nan_p = rng.choice([0.0, 0.3, 0.7])
     if kind == 'int':
-        s = pd.Series([rng.randint(-50, 10 ** rng.randint(1, 12)) for _ in range(n)], dtype='int64')
+        if rng.random() < 0.4:
+            # integer columns of any width / signedness are int columns (as float32 columns are float columns)
+            dt = rng.choice(['int8', 'int16', 'int32', 'uint8', 'uint16', 'uint32', 'uint64'])
+            s = pd.Series([rng.randint(0 if dt.startswith('u') else -50, 100) for _ in range(n)], dtype=dt)
+            stats.hit('converter.int_width.' + dt)
+        else:
+            s = pd.Series([rng.randint(-50, 10 ** rng.randint(1, 12)) for _ in range(n)], dtype='int64')
     elif kind == 'float_int':
         s = pd.Series([np.nan if rng.random() < nan_p else float(rng.randint(-5, 10 ** rng.randint(1, 9))) for _ in range(n)], dtype='float64')
     elif kind == 'float':
@@ -1032,7 +1101,7 @@ def gen_column(rng, stats):
     elif kind == 'object':
         s = pd.Series([None if rng.random() < nan_p else rng.choice(['a', 'b c', '', '12']) for _ in range(n)], dtype=object)
     elif kind == 'str':
-        s = pd.Series([None if rng.random() < nan_p else rng.choice(['a', 'b c', '', '12']) for _ in range(n)], dtype='str')
+        s = pd.Series([None if rng.random() < nan_p else rng.choice(['a', 'b c', '', '12']) for _ in range(n)], dtype=rng.choice(['str', 'str', 'string']))
     elif kind == 'float_allnan':
         s = pd.Series([np.nan] * n, dtype='float64')
     elif kind == 'empty_float':
@@ -1043,7 +1112,12 @@ def gen_column(rng, stats):
         s = pd.Series([rng.random() < 0.5 for _ in range(n)], dtype=bool)
     stats.hit('converter.kind.' + kind)
     # arbitrary (non-default, unordered) row labels: the conversion must not depend on them nor change them
-    if len(s) and rng.random() < 0.6:
+    c = rng.random()
+    if len(s) > 1 and c < 0.15:
+        k = rng.randint(1, len(s) - 1)
+        s.index = [i % k for i in range(len(s))]          # repeated labels (pd.concat of parts): labels do not identify rows
+        stats.hit('converter.index.repeated')
+    elif len(s) and c < 0.65:
         s.index = rng.sample(range(-5, 5 * len(s) + 5), len(s))
         stats.hit('converter.index.custom')
     return s, kind
@@ -1093,6 +1167,7 @@ def suite_converter(rng, n, stats):
                 exp = {'ok': {'ret': repr(res)}}
         except Exception as e:   # noqa: BLE001
             exp = {'err': err_name(e)}
+            req['_real_err_msg'] = str(e)[:160]       # not compared (the model has no messages); read by the known-finding matcher
         stats.hit('converter.mode.%s.%s' % (mode, 'inplace' if inplace else ('return_col' if return_col else 'copy')))
         cases.append((req, exp, 'converter:%s:%s:%s' % (mode, kind, inplace)))
     return cases
